@@ -38,20 +38,14 @@ func (q *Queue[T]) Dequeue() (item T, err error) {
 	q.mu.Lock()
 	defer q.mu.Unlock()
 
-	{
-		var q *Queue[T] = q
-		_ = q
-		var item T
-		_ = item
-		var err error
-		_ = err
-		if q.size() == 0 {
-			return item, fmt.Errorf("queue is empty")
-		}
-		item = q.items[0]
-		q.items = q.items[1:]
-		return item, err
+	if q.size() == 0 {
+		return item, fmt.Errorf("queue is empty")
 	}
+
+	item = q.items[0]
+	q.items = q.items[1:]
+
+	return
 }
 
 // Peek returns the first element of the queue without removing it.
@@ -78,6 +72,22 @@ func (q *Queue[T]) Search(item T) bool {
 	}
 
 	return false
+}
+
+// Reversed lists the queued elements, newest first.
+func (q *Queue[T]) Reversed() []T {
+	q.mu.Lock()
+	defer q.mu.Unlock()
+	var inl1_v0 []T
+	{
+		var s []T = q.items
+		_ = s
+		for i, j := 0, len(s)-1; i < j; i, j = i+1, j-1 {
+			s[i], s[j] = s[j], s[i]
+		}
+		inl1_v0 = s
+	}
+	return append([]T(nil), inl1_v0...)
 }
 
 // Size returns the FIFO queue size.
